@@ -1281,6 +1281,9 @@ def _core_scenario(c):
            'core': {'inlet': T_IN, 'length': CORE_L, 'pitch': round(CORE_OFTF + 0.004, 6), 'gap_model': gm,
                     'bypass_fraction': c.get('bf', 0.05) if gm != 'none' else 0.0, 'coolant': COOLANT},
            'types': types, 'assign': assign, 'power': {'asm': pw}}
+    if c.get('dumpgap'):
+        # csv dumps of the gap and duct temperatures at every plane (reporting only)
+        scn['setup']['Dump'] = {'gap': True, 'duct': True}
     return scn, fulls
 
 
@@ -1556,6 +1559,13 @@ def cases_interasm(tier):
                         out.append({'probe': 'report-interasm', 'layout': _rot(lay, rot), 'gap': gm, 'bf': bf,
                                     'ebal': True, 'L': L, 'T': UT[i % 3], 'M': UM[i % 2]})
                         i += 1
+    # the same with the gap temperatures dumped at every plane
+    for lay, gm in (IA_LAYOUTS_Q if tier == 'quick' else IA_LAYOUTS_T):
+        if gm == 'flow' and len(set(lay.split()) - {'-'}) > 1:
+            L, T, M = units_of(i)
+            out.append({'probe': 'report-interasm', 'layout': lay, 'gap': gm, 'bf': 0.05, 'ebal': True,
+                        'L': L, 'T': T, 'M': M, 'dumpgap': True})
+            i += 1
     return out
 
 
